@@ -641,6 +641,14 @@ type BuildOpts struct {
 	SMIMEKeys *SMIMEKeys
 }
 
+// serialFuncs gives a template a function whose result differs from one execution to the next
+// (a print-run counter; a clock or a random id behaves alike): what a template source contributes
+// is fixed when it is attached, however often the message is rendered.
+func serialFuncs() map[string]any {
+	n := 0
+	return map[string]any{"serial": func() int { n++; return n }}
+}
+
 // BuildMsg constructs the real *mail.Msg for a spec.
 func BuildMsg(s MsgSpec, o BuildOpts) *Built {
 	b := &Built{Spec: s}
@@ -723,7 +731,7 @@ func BuildMsg(s MsgSpec, o BuildOpts) *Built {
 		case p.Kind == "tmpl" && p.Type == "text/html":
 			// html/template escapes the data it is given; what the part carries is whatever the
 			// template produced at the time of the call, in every render
-			tpl, terr := ht.New("b").Parse("<p>{{.}}</p>\r\n")
+			tpl, terr := ht.New("b").Funcs(serialFuncs()).Parse("<p>{{.}}</p>\r\n<p>print run {{serial}}</p>\r\n")
 			fail(terr)
 			if i == 0 {
 				fail(m.SetBodyHTMLTemplate(tpl, string(p.Content.Data), popts...))
@@ -731,7 +739,7 @@ func BuildMsg(s MsgSpec, o BuildOpts) *Built {
 				fail(m.AddAlternativeHTMLTemplate(tpl, string(p.Content.Data), popts...))
 			}
 		case p.Kind == "tmpl":
-			tpl, terr := tt.New("b").Parse("{{.}}")
+			tpl, terr := tt.New("b").Funcs(serialFuncs()).Parse("{{.}}\r\nprint run {{serial}}\r\n")
 			fail(terr)
 			if i == 0 {
 				fail(m.SetBodyTextTemplate(tpl, string(p.Content.Data), popts...))
@@ -817,7 +825,7 @@ func BuildMsg(s MsgSpec, o BuildOpts) *Built {
 				pr.Fired, pr.Vanished = 1, true
 			}
 		case "tmpl":
-			tpl, terr := tt.New("t").Parse("{{.}}")
+			tpl, terr := tt.New("t").Funcs(serialFuncs()).Parse("{{.}}\r\nprint run {{serial}}\r\n")
 			fail(terr)
 			if embed {
 				fail(m.EmbedTextTemplate(f.Name, tpl, string(f.Content.Data), fopts...))
@@ -825,7 +833,7 @@ func BuildMsg(s MsgSpec, o BuildOpts) *Built {
 				fail(m.AttachTextTemplate(f.Name, tpl, string(f.Content.Data), fopts...))
 			}
 		case "htmpl":
-			tpl, terr := ht.New("t").Parse("<pre>{{.}}</pre>")
+			tpl, terr := ht.New("t").Funcs(serialFuncs()).Parse("<pre>{{.}}</pre>\r\nprint run {{serial}}\r\n")
 			fail(terr)
 			if embed {
 				fail(m.EmbedHTMLTemplate(f.Name, tpl, string(f.Content.Data), fopts...))
